@@ -237,6 +237,17 @@ func genService(rng *mrand.Rand, owner string, names []string) dohfake.HTTPS {
 	}
 	if rng.IntN(5) < 2 {
 		h.Target = names[rng.IntN(len(names))]
+		// DNS names compare without regard to case: the target may be spelled with capitals in the record
+		if rng.IntN(4) == 0 {
+			b := []byte(h.Target)
+			for k := range b {
+				if b[k] >= 'a' && b[k] <= 'z' && (k == 0 || rng.IntN(2) == 0) {
+					b[k] -= 'a' - 'A'
+				}
+			}
+			h.TargetWire = string(b)
+			mixedCaseTargets.Add(1)
+		}
 	}
 	if rng.IntN(2) == 0 {
 		h.Port = []uint16{443, 8443, 80, uint16(1 + rng.IntN(65535))}[rng.IntN(4)]
@@ -313,7 +324,7 @@ func cnameChain(z *dohfake.Zone, name string) map[string]bool {
 	return seen
 }
 
-var foldPoison atomic.Int64
+var foldPoison, mixedCaseTargets atomic.Int64
 
 func foldVariant(name string) string {
 	for i := 0; i < len(name); i++ {
@@ -1218,6 +1229,8 @@ func TestCheck(t *testing.T) {
 	r.Floor("answers_with_cname_after_its_target", int64(n)/100)
 	r.Floor("universes_served_without_content_length", int64(n)/16)
 	r.Floor("inputs_with_a_dot_in_the_scheme", int64(n)/200)
+	r.Count("service_targets_spelled_with_capitals", mixedCaseTargets.Load())
+	r.Floor("service_targets_spelled_with_capitals", int64(n)/50)
 	r.Count("poison_records_owned_by_unicode_fold_variant_of_the_name", foldPoison.Load())
 	r.Floor("poison_records_owned_by_unicode_fold_variant_of_the_name", int64(n)/200)
 	r.Floor("alias_hops_followed", int64(n)/10)
